@@ -1,8 +1,10 @@
 PROPERTY = "C03"
 LEVEL = "proof"
-LEAN_MODULES = ["CifModel.Props.C03", "CifModel.Lemmas.ParserTop", "CifModel.Lemmas.ParserQuiet", "CifModel.Lemmas.ParserDetProd", "CifModel.Lemmas.ParserDetLex", "CifModel.Lemmas.ParserDet"]
+LEAN_MODULES = ["CifModel.Props.C03", "CifModel.Lemmas.ParserTop", "CifModel.Lemmas.ParserQuiet", "CifModel.Lemmas.ParserConsistent", "CifModel.Lemmas.ParserStore", "CifModel.Lemmas.ParserDetProd", "CifModel.Lemmas.ParserDetLex", "CifModel.Lemmas.ParserDet"]
 REQUIRED = ["CifModel.C03_total", "CifModel.C03_clamp", "CifModel.C03_report_site", "CifModel.C03_prefix_determinism", "CifModel.C03_result",
-            "CifModel.C03_reported_partial", "CifModel.C03_reported", "CifModel.Model.Parser.parseInternal_die", "CifModel.C03_die_is_first", "CifModel.C03_accept_all", "CifModel.C03_codes_nonzero",
+            "CifModel.C03_reported_partial", "CifModel.C03_reported", "CifModel.Model.Parser.parseInternal_die", "CifModel.C03_consistent_after", "CifModel.C03_consistent_after_fresh",
+            "CifModel.C03_consistent_iff", "CifModel.C03_consistent_container", "CifModel.Model.Parser.parse_ok", "CifModel.Model.Parser.updIn_ok",
+            "CifModel.C03_die_is_first", "CifModel.C03_accept_all", "CifModel.C03_codes_nonzero",
             "CifModel.Model.Parser.parse_spec", "CifModel.Model.Parser.blocksLoop_det", "CifModel.Model.Lexer.nextToken_detl"]
 GEN = ["ErrCodes", "CharClass", "ParseConsts"]
 FAMILIES = ["parse", "parsebytes"]
@@ -37,8 +39,12 @@ PARTIAL = [
     "C03_total: totality is by construction (Lean's termination check); the fuel-suffices lemma (the out-of-fuel marker 1001 is never "
     "the result for the fuel 2*|input|+16 that `parse` passes) is NOT proved — 1001 has never been observed in the correspondence.",
     "C03_callback_lines (every report has line >= 1) is not proved; checked by the oracle on every report of every request.",
-    "C03_consistent_after (store invariant) is not stated in Lean: the model stores into the abstract data model; the executor "
-    "walks, writes, modifies and destroys the real CIF after every parse under ASan/UBSan.",
+    "C03_consistent_after is proved about the model's target (the documented data model, CifModel.Cif): block codes / frame codes "
+    "distinct after normalisation, every normalised item name once per container, at most one scalar loop, at most one packet in a "
+    "scalar loop — after every parse, also an aborted one, from every consistent initial target.  NOT in the invariant: that every "
+    "packet has as many values as its loop has names (needs the column bookkeeping of parse_loop_packets).  That the REAL store is "
+    "consistent after a parse is observed, not proved: the executor walks, writes, modifies and destroys the real CIF after every "
+    "parse under ASan/UBSan, and its dump is compared with the model's.",
     "memory safety, undefined behaviour and byte decoding of the C are runtime-observed only (families parse and parsebytes).",
 ]
 LEVEL_TEXT = ("Theorems about the executable integrated parser model (every input string, every option record, every callback "
